@@ -21,7 +21,7 @@ RULE = (
     "{none, sort window that zeroes realizations (objective 0 + constraint), cvar filter mapped to the constraint only}, transforms {none, variables, objectives, constraints, all}, with and without a failing (NaN) unperturbed and perturbed row. The evaluator "
     "returns an injective dyadic code of (x, realization, function). Monitors on every call: label multiset == full product "
     "once each, perturbation index -1 exactly on unperturbed rows, rows are the user-domain images of the reported "
-    "variables, every reported per-realization value is the value returned for the row with that label, inactive => weight "
+    "variables, every reported per-realization value (and evaluation_info entry) is the value returned for the row with that label, inactive => weight "
     "0 (and on the gradient-only call weight 0 => inactive); whole-run differentials: garbage {0, 1e6, -7} in inactive "
     "entries must not change any reported function/gradient/weight/flag; a memoizing evaluator's returned objects are "
     "byte-identical before/after every call; an evaluator handing out read-only views of buffers it refills on the next "
@@ -98,7 +98,7 @@ def run_sequence(case: dict[str, Any], *, garbage: float | None, memoize: bool, 
             return [1]  # NaN in an objective column of a perturbed row
         return None
 
-    evaluator = TableEvaluator(value_fn, 2, 1, garbage=garbage, memoize=memoize, fail=fail, pooled=pooled)
+    evaluator = TableEvaluator(value_fn, 2, 1, garbage=garbage, memoize=memoize, fail=fail, pooled=pooled, info=True)
     ens = EnsembleEvaluator(config, transforms, evaluator, manager)
     V = case["V"]
     out: dict[str, Any] = {"config": config, "transforms": transforms, "evaluator": evaluator, "steps": [], "error": None}
@@ -233,6 +233,9 @@ def judge(case: dict[str, Any]) -> Judgement:
                     ret = [np.nan] * len(ret)  # a failed row is reported as failed in every column
                 if not close(got, ret, 1e-12):
                     j.fail("reported-value-not-the-labelled-row", op=op, label=(r, p), observed=got, returned=ret)
+                tag = np.asarray(res.evaluations.evaluation_info.get("tag", []))
+                if call.info is not None and (tag.shape != (R,) or tag[r] != call.info[i]):
+                    j.fail("evaluation-info-not-the-labelled-row", op=op, label=(r, p), observed=tag, returned=call.info[i])
             else:
                 res = gres[0]
                 x_rep = to_user_x(np.asarray(res.evaluations.perturbed_variables)[r, p])
@@ -245,6 +248,9 @@ def judge(case: dict[str, Any]) -> Judgement:
                     ret = [np.nan] * len(ret)
                 if not close(got, ret, 1e-12):
                     j.fail("reported-value-not-the-labelled-row", op=op, label=(r, p), observed=got, returned=ret)
+                tag = np.asarray(res.evaluations.evaluation_info.get("tag", []))
+                if call.info is not None and (tag.shape != (R, P) or tag[r, p] != call.info[i]):
+                    j.fail("evaluation-info-not-the-labelled-row", op=op, label=(r, p), observed=tag, returned=call.info[i])
         # ---- activity flags
         for res in results:
             wo = res.realizations.objective_weights
